@@ -39,7 +39,7 @@ def reified(kind, role):
 def run(ctx):
     core = ctx.core
     S.TEMPLATES = lambda n: ";".join(H.template_text(t) for t in H.macro_templates(core, n)) or None
-    S.INLINE = None
+    S.INLINE = S.default_inline(core)
     ctx.not_decided += ["transitivity / trichotomy as relations on values (they follow from std's orders on f64 without NaN, str, bool and usize given R3/R4)", "NaN (excluded by the statement)"]
 
     # ---------------- R1 one comparison table, every copy
